@@ -102,6 +102,13 @@ ValueLattice ==
     UNION {{RespCase(k, v, BIG, "value-lattice") : v \in OneAtATime(RespSchema(k), F, FALSE)} :
               k \in {"GetInfo", "MakeCredential", "GetAssertion", "ClientPin", "CredentialManagement", "LargeBlobs"}}
 
-MC_Cases == ValueLattice \cup BoolCases \cup GetInfoCases \cup McCases \cup GaCases \cup CpCases \cup CmCases \cup LbCases \cup BodylessCases
+\* every PAIR of members at every combination of the extremes of their types
+PairLattice ==
+    UNION {{RespCase(k, v, BIG, "pair-lattice") : v \in TwoAtATime(RespSchema(k), F, FALSE)} :
+              k \in {"GetInfo", "MakeCredential", "GetAssertion", "ClientPin", "CredentialManagement"}}
+    \cup {RespCase("GetAssertion", [GaRespMin EXCEPT !.user = <<u>>], BIG, "pair-lattice-nested") : u \in TwoAtATime("User", F, FALSE)}
+    \cup {RespCase("GetInfo", [GiMin EXCEPT !.options = <<o>>], BIG, "pair-lattice-nested") : o \in TwoAtATime("GetInfoOptions", F, FALSE)}
+
+MC_Cases == ValueLattice \cup PairLattice \cup BoolCases \cup GetInfoCases \cup McCases \cup GaCases \cup CpCases \cup CmCases \cup LbCases \cup BodylessCases
             \cup LatticeCases \cup TypePairs
 =============================================================================
